@@ -21,11 +21,11 @@ static double g_cpu_s = 1.0;
 static std::map<std::string, int>& hangs() { static std::map<std::string, int> h; return h; }
 static void on_alarm(int) {
   if (in_child()) _exit(77);
-  std::printf("#BAD hang :: %s :: call did not terminate within %d s (watchdog)\n", current_op().c_str(), g_watch_s);
+  std::printf("#BAD hang :: %s :: call did not terminate within its CPU-time limit (watchdog)\n", current_op().c_str());
   std::fflush(stdout);
   _exit(0);
 }
-struct Watch { Watch() { alarm(unsigned(g_watch_s)); } ~Watch() { alarm(0); } };
+struct Watch { Watch() { arm(g_watch_s); } ~Watch() { disarm(); } };
 
 // ---------------------------------------------------------------------------------------------------------------
 // special values
@@ -88,9 +88,11 @@ static bool isolate(const std::string& entry, int pos, double v) {
   // F25: Geohash/GARS/Georef::Forward test isnan(lon) before AngNormalize(lon) turns an infinite longitude into NaN
   if (pos == 1 && std::isinf(v) && (entry == "Geohash.Forward" || entry == "GARS.Forward" || entry == "Georef.Forward")) return true;
   // F26: OSGB::CheckCoords formats int(floor(x/1000)) into its error message
-  if (!(std::fabs(v) < 2e12) && !std::isnan(v) && entry == "OSGB.GridReference") return true;
+  if (!(std::fabs(v) < 2e12) && !std::isnan(v) && (entry == "OSGB.GridReference" || entry == "OSGB.GridReference11")) return true;
   // F28: DMS::Encode(ang, d, m[, s]) truncates with int(ang)
   if (!(std::fabs(v) < 2147483648.0) && entry == "DMS.EncodeDMS") return true;
+  // F33: MGRS::CheckCoords lets a tiny negative northing through as row 0 (y / tile_ underflows to -0); Forward then indexes digits_[-1]
+  if (pos == 1 && v < 0 && v > -1e-318 && (entry == "MGRS.Forward" || entry == "MGRS.ForwardLat")) return true;
   return false;
 }
 static void sweep_one(const std::string& entry, int pos, double v) {
@@ -134,5 +136,6 @@ void gv::generate(const std::string& tier, uint64_t seed) {
 
 int main(int c, char** v) {
   std::signal(SIGALRM, on_alarm);
+  std::signal(SIGPROF, on_alarm);
   return gv::main_(c, v);
 }
